@@ -51,6 +51,9 @@ def run(ctx, res):
             if not same_outcome(impl_outcome(i), model_outcome(m)):
                 res.violation("correspondence", "model and implementation of Output.format disagree", tie=True,
                               layer="correspondence E (Output.format)", ddl=d)
+        # ---- correspondence D (lexer + LR + semantic actions incl. the table-level clauses) and F (whole run) ------------------
+        corr_parse(ctx, res, [s_ for a in st if "ok" in a for s_ in a["ok"]["statements"]])
+        corr_run(ctx, res, sample)
     res.samples.append({"ddl": texts[0], "expected": G.expected_table(tabs[0])})
     res.samples.append({"ddl": texts[7]})
 
